@@ -49,6 +49,25 @@ def rand_pipe(rng, source, second=None):
     return p
 
 
+def retry_twice_cases(rng, count, group):
+    """(E) a retry / retry_when Observable value subscribed twice: the budget is per subscription"""
+    cases = []
+    transparent = ["map", "filter", "scan", "distinct_until_changed", "skip", "tap", "buffer_with_count", "materialize"]
+    for _ in range(count):
+        g = group()
+        f1 = scen.script([rng.choice(ITEMS) for _ in range(rng.randrange(0, 4))], ("e", 5))
+        f2 = scen.script([rng.choice(ITEMS) for _ in range(rng.randrange(0, 4))], ("e", 5))
+        ok1, ok2 = rand_script(rng, 0.0), rand_script(rng, 0.0)
+        inner = scen.rand_chain(rng, ["cold", 0], rng.choice([0, 1]), names=[x for x in transparent if x != "materialize"])
+        outer = rng.choice([["retry", [2]], ["retry", [3]], ["retry_when", [["eq", 5]]]])
+        pipe = scen.rand_chain(rng, op(outer[0], outer[1], inner), rng.choice([0, 1]), names=transparent)
+        cases.append((scn(srcs=[src([f1, ok1, f2, ok2], False)], handles=2, script_=[sub(0, ["ref", 0]), sub(1, ["ref", 0])], defs=[pipe]),
+                      {"k": "retry-twice", "g": g, "role": "combined", "n": 2}))
+        cases.append((scn(srcs=[src([f1, ok1], False)], handles=1, script_=[sub(0, ["ref", 0])], defs=[pipe]), {"k": "solitary", "g": g, "role": "solo", "who": 0}))
+        cases.append((scn(srcs=[src([f2, ok2], False)], handles=1, script_=[sub(0, ["ref", 0])], defs=[pipe]), {"k": "solitary", "g": g, "role": "solo", "who": 1}))
+    return cases
+
+
 def generate(rng, tier, focus):
     thorough = tier == "thorough"
     cases = []
@@ -105,20 +124,7 @@ def generate(rng, tier, focus):
         cases.append((scn(srcs=[src([s_fail, s_ok], False)], handles=1, script_=[sub(0, ["ref", 0])], defs=[pipe]), {"k": "retry", "g": g, "role": "retry"}))
         cases.append((scn(srcs=[src([s_fail], False)], handles=1, script_=[sub(0, ["ref", 0])], defs=[inner]), {"k": "solitary", "g": g, "role": "solo", "who": 0}))
         cases.append((scn(srcs=[src([s_ok], False)], handles=1, script_=[sub(0, ["ref", 0])], defs=[inner]), {"k": "solitary", "g": g, "role": "solo", "who": 1}))
-    # (E) a retry / retry_when Observable value subscribed twice: the budget is per subscription
-    transparent = ["map", "filter", "scan", "distinct_until_changed", "skip", "tap", "buffer_with_count", "materialize"]
-    for _ in range(1200 if thorough else 200):
-        g = group()
-        f1 = scen.script([rng.choice(ITEMS) for _ in range(rng.randrange(0, 4))], ("e", 5))
-        f2 = scen.script([rng.choice(ITEMS) for _ in range(rng.randrange(0, 4))], ("e", 5))
-        ok1, ok2 = rand_script(rng, 0.0), rand_script(rng, 0.0)
-        inner = scen.rand_chain(rng, ["cold", 0], rng.choice([0, 1]), names=[x for x in transparent if x != "materialize"])
-        outer = rng.choice([["retry", [2]], ["retry", [3]], ["retry_when", [["eq", 5]]]])
-        pipe = scen.rand_chain(rng, op(outer[0], outer[1], inner), rng.choice([0, 1]), names=transparent)
-        cases.append((scn(srcs=[src([f1, ok1, f2, ok2], False)], handles=2, script_=[sub(0, ["ref", 0]), sub(1, ["ref", 0])], defs=[pipe]),
-                      {"k": "retry-twice", "g": g, "role": "combined", "n": 2}))
-        cases.append((scn(srcs=[src([f1, ok1], False)], handles=1, script_=[sub(0, ["ref", 0])], defs=[pipe]), {"k": "solitary", "g": g, "role": "solo", "who": 0}))
-        cases.append((scn(srcs=[src([f2, ok2], False)], handles=1, script_=[sub(0, ["ref", 0])], defs=[pipe]), {"k": "solitary", "g": g, "role": "solo", "who": 1}))
+    cases += retry_twice_cases(rng, 1200 if thorough else 200, group)
     return cases
 
 
